@@ -170,7 +170,15 @@ PropC12(e) ==
 
 InvC16 == l > 0 => PropC16(E) /\ PropC16Empty(E)
 InvAgreeC16 == l > 0 => AgreeC16(E)
-InvC09 == l > 0 => PropC09(E) /\ PropC09e(E) /\ PropC18e(E)
+\* a value that brings its own variables is inserted as is: they are the result's variables and can be filled by a later
+\* call like any other (whatever depth the insertion happened at); a name it brings that the template already uses is refused
+PropC09b(e) == e.ev = "fillbring" =>
+  LET t == e.tmpl.abs  w1 == Subst(t, e.sigma1)  w2 == Subst(w1, e.sigma2) IN
+  IF ~NoDup(Vars(w1)) THEN e.one.outcome = "refused"
+  ELSE /\ e.one.outcome = "ok" /\ Norm(e.one.abs) = Norm(w1) /\ e.one.vars = Vars(w1)
+       /\ e.two.outcome = "ok" /\ Norm(e.two.abs) = Norm(w2) /\ e.two.vars = Vars(w2)
+       /\ Same(e.two, e.direct)
+InvC09 == l > 0 => PropC09(E) /\ PropC09e(E) /\ PropC18e(E) /\ PropC09b(E)
 InvC18e == l > 0 => PropC18e(E)
 InvC12 == l > 0 => PropC12(E)
 =====================================================================
